@@ -1066,3 +1066,162 @@ Proof.
   repeat (split; [assumption|]).
   exact (line_segment_to_rectangle_optimal _ _ _ _ _ _ _ _ _ _ _ Hne H6 U0 U1 U01 P2 P2 L L Hband H Hd).
 Qed.
+
+(** ** the `break` band of _line_to_rectangle is real: refutation without [d = 0 \/ eps <= d] *)
+(** the line through (1,0,0) with direction (-4/5, 3/5, 0) lies in the plane of the square [-1,1]^2 and
+    crosses it (common point (1,0,0): true distance 0).  It misses the first edge x = -1 by 2/5 < eps = 1/2:
+    the inner loop breaks, the edge x = +1 is skipped; in the second group the edge y = -1 is 4/5
+    away and the loop breaks again (best = 2/5 < eps) before the edge y = +1.  Returned: 2/5. *)
+Definition rf_lp : V3R := V 1 0 0.
+Definition rf_ld : V3R := V (- (4 / 5)) (3 / 5) 0.
+Definition rf_n : V3R := V (- (3 / 5)) (- (4 / 5)) 0.
+
+Lemma rf_edges :
+  rectangle_edges (V 0 0 0 : V3R) (vscale (/ 2 * 2) (V 1 0 0)) (vscale (/ 2 * 2) (V 0 1 0)) =
+  [[(V (-1) (-1) 0, V (-1) 1 0); (V 1 (-1) 0, V 1 1 0)]; [(V (-1) (-1) 0, V 1 (-1) 0); (V (-1) 1 0, V 1 1 0)]].
+Proof. unfold rectangle_edges, rectangle_segment. cbn [map]. repeat f_equal; vunfold; f_equal; field. Qed.
+
+Lemma norm_lt_of_sq (a : V3R) (t : R) : 0 < t -> dot a a < t * t -> norm a < t.
+Proof.
+  intros Ht H. pose proof (norm_nonneg a). pose proof (norm_sq a).
+  destruct (Rlt_dec (norm a) t); auto. nra.
+Qed.
+
+(** a candidate of the line against a segment on the far side of the line's normal *)
+Lemma rf_candidate (s0 e0 : V3R) (beta : R) d c1 c2 t s arm :
+  1 <= dot (vsub e0 s0) (vsub e0 s0) ->
+  beta <= dot s0 rf_n -> beta <= dot e0 rf_n ->
+  line_to_line_segment_full rf_lp rf_ld s0 e0 (1 / 2) = (d, c1, c2, t, s, arm) ->
+  beta + 3 / 5 <= d /\ forall x y, line_set rf_lp rf_ld x -> segment_set s0 e0 y -> d <= norm (vsub x y).
+Proof.
+  intros Ha Hs He E.
+  assert (Hu : dot rf_ld rf_ld = 1) by (unfold rf_ld; vunfold; field).
+  split.
+  - apply line_to_line_segment_full_feasible in E; [|right; lra].
+    destruct E as ((tt & ->) & (u & Hu01 & ->) & _ & ->).
+    assert (Hn : norm rf_n = 1).
+    { rewrite (norm_abs_of_sq _ 1); [apply Rabs_R1|]. unfold rf_n. vunfold. field. }
+    pose proof (separating_direction (line_set rf_lp rf_ld) (segment_set s0 e0) rf_n (- (3 / 5)) beta Hn) as Hsep.
+    replace (beta + 3 / 5) with (beta - - (3 / 5)) by ring. apply Hsep.
+    + intros a (ta & ->). rewrite dot_add_l, dot_scale_l. unfold rf_lp, rf_ld, rf_n. vunfold. apply Req_le. field.
+    + intros b (ub & Hub & ->). rewrite dot_add_l, dot_scale_l, dot_sub_l. nra.
+    + apply line_mem.
+    + exists u. auto.
+  - assert (EL : line_to_line_segment rf_lp rf_ld s0 e0 (1 / 2) = (d, c1, c2))
+      by (unfold line_to_line_segment; rewrite E; reflexivity).
+    apply (line_to_line_segment_optimal _ _ _ _ _ _ _ _ Hu) in EL; try lra. exact EL.
+Qed.
+
+Lemma rect_inner_cons (lp ld : V3R) (eps : R) (se : V3R * V3R) rest bd b1 b2 bt d cpl cps t s arm :
+  line_to_line_segment_full lp ld (fst se) (snd se) eps = (d, cpl, cps, t, s, arm) ->
+  rect_inner lp ld eps (se :: rest) (bd, b1, b2, bt) =
+  (let best' := if ltb (Ops:=ROps) d bd then (d, cpl, cps, t) else (bd, b1, b2, bt) in
+   if ltb (Ops:=ROps) (d4 best') eps then best' else rect_inner lp ld eps rest best').
+Proof.
+  intros E.
+  change (rect_inner lp ld eps (se :: rest) (bd, b1, b2, bt)) with
+      (let '(bd, _, _, _) := (bd, b1, b2, bt) in
+       let '(d, cpl, cps, t, _, _) := line_to_line_segment_full lp ld (fst se) (snd se) eps in
+       let best' := if ltb (Ops:=ROps) d bd then (d, cpl, cps, t) else (bd, b1, b2, bt) in
+       let '(bd', _, _, _) := best' in
+       if ltb (Ops:=ROps) bd' eps then best' else rect_inner lp ld eps rest best').
+  rewrite E. cbv zeta. ops_R. destruct (Rltb d bd); reflexivity.
+Qed.
+
+Lemma rf_result :
+  exists d c1 c2 t, line_to_rectangle_full rf_lp rf_ld (V 0 0 0) (V 1 0 0) (V 0 1 0) 2 2 (1 / 2) = (d, c1, c2, t, 1%nat) /\
+                    2 / 5 <= d < 1 / 2 /\ 0 <= t <= 5.
+Proof.
+  unfold line_to_rectangle_full. rewrite half_eq, half_R. cbv zeta.
+  assert (EN : line_intersects_rectangle rf_lp rf_ld (V 0 0 0) (V 1 0 0) (V 0 1 0) (mul (/ 2) 2) (mul (/ 2) 2) (1 / 2) = None).
+  { unfold line_intersects_rectangle. cbv zeta.
+    replace (dot (cross (V 1 0 0 : V3R) (V 0 1 0)) rf_ld) with 0 by (unfold rf_ld; vunfold; ring).
+    ops_R. rewrite Rabs_R0. rewrite (proj2 (Rltb_false (1 / 2) 0)) by lra. reflexivity. }
+  rewrite EN. ops_R. rewrite rf_edges.
+  match goal with |- context [fold_left ?f ?l ?i] =>
+    change (fold_left f l i) with (fold_left (fun b segs => rect_inner rf_lp rf_ld (1 / 2) segs b) l i) end.
+  cbn [fold_left].
+  destruct (line_to_line_segment_full rf_lp rf_ld (V (-1) (-1) 0) (V (-1) 1 0) (1 / 2)) as [[[[[d1 p1] q1] t1] s1] arm1] eqn:E1.
+  destruct (line_to_line_segment_full rf_lp rf_ld (V (-1) (-1) 0) (V 1 (-1) 0) (1 / 2)) as [[[[[d3 p3] q3] t3] s3] arm3] eqn:E3.
+  destruct (rf_candidate (V (-1) (-1) 0) (V (-1) 1 0) (- (1 / 5)) _ _ _ _ _ _ ltac:(vunfold; lra) ltac:(unfold rf_n; vunfold; lra) ltac:(unfold rf_n; vunfold; lra) E1) as [L1 O1].
+  destruct (rf_candidate (V (-1) (-1) 0) (V 1 (-1) 0) (1 / 5) _ _ _ _ _ _ ltac:(vunfold; lra) ltac:(unfold rf_n; vunfold; lra) ltac:(unfold rf_n; vunfold; lra) E3) as [L3 _].
+  assert (U1 : d1 < 1 / 2).
+  { eapply Rle_lt_trans; [apply (O1 (vadd rf_lp (vscale 2 rf_ld)) (V (-1) 1 0)); [apply line_mem|exists 1; split; [lra|veq]]|].
+    apply norm_lt_of_sq; [lra|]. unfold rf_lp, rf_ld. vunfold. lra. }
+  pose proof max_float_gt_1 as HM.
+  rewrite (rect_inner_cons _ _ _ (V (-1) (-1) 0, V (-1) 1 0) _ _ _ _ _ _ _ _ _ _ _ E1). cbv zeta. ops_R.
+  rewrite (proj2 (Rltb_true d1 max_float)) by lra. unfold d4 at 1. cbn [fst].
+  rewrite (proj2 (Rltb_true d1 (1 / 2))) by lra.
+  rewrite (rect_inner_cons _ _ _ (V (-1) (-1) 0, V 1 (-1) 0) _ _ _ _ _ _ _ _ _ _ _ E3). cbv zeta. ops_R.
+  rewrite (proj2 (Rltb_false d3 d1)) by lra. unfold d4. cbn [fst].
+  rewrite (proj2 (Rltb_true d1 (1 / 2))) by lra.
+  exists d1, p1, q1, t1. split; [reflexivity|]. split; [lra|].
+  (* the returned parameter: |x(c1) - x(c2)| <= d1 < 1/2 with x(c2) = -1, x(c1) = 1 - 4 t / 5 *)
+  assert (Hu : dot rf_ld rf_ld = 1) by (unfold rf_ld; vunfold; field).
+  assert (Hge : 1 / 2 <= dot rf_ld rf_ld) by lra.
+  pose proof (line_to_line_segment_full_param _ _ _ _ _ _ _ _ _ _ _ Hge E1) as Hp.
+  apply line_to_line_segment_full_feasible in E1; [|right; lra].
+  destruct E1 as (_ & (u & Hu01 & ->) & _ & Hd1). subst p1.
+  pose proof (norm_sq (vsub (vadd rf_lp (vscale t1 rf_ld))
+                            (vadd (V (-1) (-1) 0) (vscale u (vsub (V (-1) 1 0) (V (-1) (-1) 0)))))) as Hsq.
+  rewrite <- Hd1 in Hsq. clear Hd1 O1 L3 E3.
+  unfold rf_lp, rf_ld in Hsq. vunfold.
+  assert (Hx : (1 + t1 * - (4 / 5) - (-1 + u * (-1 - -1))) * (1 + t1 * - (4 / 5) - (-1 + u * (-1 - -1))) <= d1 * d1).
+  { rewrite Hsq. pose proof (sqr_nonneg (0 + t1 * (3 / 5) - (-1 + u * (1 - -1)))).
+    pose proof (sqr_nonneg (0 + t1 * 0 - (0 + u * (0 - 0)))). lra. }
+  clear Hsq. split; nra.
+Qed.
+
+Theorem line_to_rectangle_optimal_refuted :
+  exists lp ld c a0 a1 l0 l1 eps d c1 c2,
+    dot ld ld = 1 /\ 0 < eps < 1 /\ dot a0 a0 = 1 /\ dot a1 a1 = 1 /\ dot a0 a1 = 0 /\
+    0 <= l0 /\ 0 <= l1 /\ eps <= l0 * l0 /\ eps <= l1 * l1 /\
+    (dot (cross a0 a1) ld = 0 \/ eps < Rabs (dot (cross a0 a1) ld)) /\
+    line_to_rectangle lp ld c a0 a1 l0 l1 eps = (d, c1, c2) /\
+    ~ optimal (line_set lp ld) (rectangle_set c a0 a1 l0 l1) d.
+Proof.
+  destruct rf_result as (d & c1 & c2 & t & E & Hd & _).
+  exists rf_lp, rf_ld, (V 0 0 0), (V 1 0 0), (V 0 1 0), 2, 2, (1 / 2), d, c1, c2.
+  split; [unfold rf_ld; vunfold; field|]. split; [lra|].
+  split; [vunfold; ring|]. split; [vunfold; ring|]. split; [vunfold; ring|].
+  split; [lra|]. split; [lra|]. split; [lra|]. split; [lra|].
+  split; [left; unfold rf_ld; vunfold; ring|].
+  split; [unfold line_to_rectangle; rewrite E; reflexivity|].
+  intros H. specialize (H rf_lp rf_lp (line_mem_start _ _)).
+  assert (Hr : rectangle_set (V 0 0 0) (V 1 0 0) (V 0 1 0) 2 2 rf_lp).
+  { exists 1, 0. split; [rewrite Rabs_R1; lra|]. split; [rewrite Rabs_R0; lra|]. unfold rf_lp. veq. }
+  specialize (H Hr). rewrite norm_sub_self in H. lra.
+Qed.
+
+Lemma rf_convert : convert_segment_to_line rf_lp (V (-3) 3 0) = (rf_ld, 5).
+Proof.
+  unfold convert_segment_to_line.
+  replace (vsub (V (-3) 3 0) rf_lp) with (V (-4) 3 0 : V3R) by (unfold rf_lp; veq).
+  assert (Hn : norm (V (-4) 3 0 : V3R) = 5).
+  { rewrite (norm_abs_of_sq _ 5); [apply Rabs_pos_eq; lra|]. vunfold. ring. }
+  rewrite Hn. ops_R. rewrite (proj2 (Rltb_true 0 5)) by lra. f_equal. unfold rf_ld. vunfold. f_equal; field.
+Qed.
+
+Theorem line_segment_to_rectangle_optimal_refuted :
+  exists s e c a0 a1 l0 l1 eps d c1 c2,
+    s <> e /\ 0 < eps < 1 /\ dot a0 a0 = 1 /\ dot a1 a1 = 1 /\ dot a0 a1 = 0 /\
+    0 <= l0 /\ 0 <= l1 /\ eps <= l0 * l0 /\ eps <= l1 * l1 /\
+    (let sd := fst (convert_segment_to_line s e) in
+     dot (cross a0 a1) sd = 0 \/ eps < Rabs (dot (cross a0 a1) sd)) /\
+    line_segment_to_rectangle s e c a0 a1 l0 l1 eps = (d, c1, c2) /\
+    ~ optimal (segment_set s e) (rectangle_set c a0 a1 l0 l1) d.
+Proof.
+  destruct rf_result as (d & c1 & c2 & t & E & Hd & Ht).
+  exists rf_lp, (V (-3) 3 0), (V 0 0 0), (V 1 0 0), (V 0 1 0), 2, 2, (1 / 2), d, c1, c2.
+  split; [unfold rf_lp; intros H; injection H as H _; lra|]. split; [lra|].
+  split; [vunfold; ring|]. split; [vunfold; ring|]. split; [vunfold; ring|].
+  split; [lra|]. split; [lra|]. split; [lra|]. split; [lra|].
+  split; [rewrite rf_convert; cbn [fst]; left; unfold rf_ld; vunfold; ring|].
+  split.
+  - unfold line_segment_to_rectangle, line_segment_to_rectangle_full. rewrite rf_convert, E. ops_R.
+    rewrite (proj2 (Rltb_false t 0)) by lra. rewrite (proj2 (Rltb_false 5 t)) by lra. reflexivity.
+  - intros H. specialize (H rf_lp rf_lp (seg_start_in _ _)).
+    assert (Hr : rectangle_set (V 0 0 0) (V 1 0 0) (V 0 1 0) 2 2 rf_lp).
+    { exists 1, 0. split; [rewrite Rabs_R1; lra|]. split; [rewrite Rabs_R0; lra|]. unfold rf_lp. veq. }
+    specialize (H Hr). rewrite norm_sub_self in H. lra.
+Qed.
